@@ -9,6 +9,7 @@ import (
 
 	lz4 "github.com/pierrec/lz4/v4"
 
+	"verif/internal/gen"
 	"verif/internal/ref"
 )
 
@@ -104,6 +105,32 @@ func c19Run(c *Ctx, i int64) {
 			}
 			detail := func() map[string]interface{} {
 				return map[string]interface{}{"header": hexs(hdr), "flg": flg, "bd": bd, "hc": hc, "want_hc": wantHC, "size": size}
+			}
+			if hcOK {
+				// the same header delivered in fragments (one byte per read; one split at a rotating position):
+				// the verdict and the size may not depend on how the source cuts its reads
+				for v := 0; v < 2; v++ {
+					var fn int
+					var ferr error
+					var fsize int
+					src := &gen.Source{Data: hdr, Mode: gen.ReadOneByte, Budget: 1000}
+					if v == 1 {
+						src = &gen.Source{Data: hdr, MaxChunk: 5 + (bd+hc)%11, Budget: 1000}
+					}
+					if c.Guard("Reader.Read", func() {
+						r := lz4.NewReader(src)
+						fn, ferr = r.Read(rbuf[:])
+						fsize = r.Size()
+					}) {
+						return
+					}
+					c.Count("fragmented_header_reads", 1)
+					if fn != rn || fsize != rsize || fmt.Sprint(ferr) != fmt.Sprint(rerr) {
+						if !c.Over("header-verdict-depends-on-read-fragmentation") {
+							c.Violation("header-verdict-depends-on-read-fragmentation", fmt.Sprintf("FLG=%02x BD=%02x HC=%02x (correct): Reader on one read = (%d, %v) Size %d; delivered in fragments (variant %d) = (%d, %v) Size %d", flg, bd, hc, rn, rerr, rsize, v, fn, ferr, fsize), detail())
+						}
+					}
+				}
 			}
 			switch {
 			case hcOK && codeOK:
